@@ -3,6 +3,7 @@ use super::common::*;
 use crate::engine::*;
 use crate::gen::*;
 use crate::sim::scenario::{Op, Scenario};
+use proptest::prelude::*;
 
 pub const PROPS: &[&str] = &["C03"];
 
@@ -48,7 +49,47 @@ pub fn run(ctx: &Ctx) -> PropReport {
     p.fps = vec![60, 60, 60, 30, 120, 144];
     p.ticks = ctx.tier.pick((250, 1200), (2000, 5000));
     let rule = "C01's scenario space, both predictors; for every AdvanceFrame request (first simulations and resimulations) and every player: local => Confirmed and true value; Confirmed => frame <= newest received (session accessor AND network ledger) and true value; Predicted => frame > newest received, player connected, value == predictor(newest received true input) or default if none; Disconnected => player disconnected before that frame and default value; frames at or below confirmed_frame() keep their values in later resimulations; confirmed_frame() monotone; non-trivial = >=1 predicted input later corrected AND >=1 prediction reused for >=2 consecutive frames";
-    rep.parts.push(run_random(ctx, "p2p", rule, || scenario(&p), ctx.tier.pick(6000, 24000), eval));
+    // a third of the cases: a custom predictor for which predict(default) != default (seeded change C03-r9: the library
+    // called the predictor on a blank slot for players from whom nothing had been received yet)
+    let with_custom = |s: BoxedStrategy<Scenario>| -> BoxedStrategy<Scenario> {
+        use proptest::prelude::*;
+        s.prop_map(|mut sc| {
+            if sc.seed % 3 == 0 {
+                sc.predictor = 2;
+                sc.vals = sc.vals.max(4);
+            }
+            sc
+        })
+        .boxed()
+    };
+    rep.parts.push(run_random(ctx, "p2p", rule, || with_custom(scenario(&p)), ctx.tier.pick(6000, 24000), eval));
+    // ... and 3-4 peers of which one stays silent for a while after the handshake (its first inputs arrive seconds
+    // late) while the others are predicted and corrected: its prediction is re-created at frames > 0 again and again
+    let mut ps = p.clone();
+    ps.ticks = ctx.tier.pick((200, 500), (400, 1500));
+    rep.part(|| run_random(ctx, "silent_peer",
+        "3-4 peers, custom predictor x -> x|1 in two thirds of the cases: every packet one peer sends to another is lost for the first 0.3-3 s after the start (timeouts raised), while the other links (latency, loss) keep causing corrections: a player from whom nothing was received yet must be handed the DEFAULT input as Predicted, not predictor(default); same clauses as p2p; non-trivial = a prediction later corrected",
+        || {
+            use proptest::prelude::*;
+            let mut q = ps.clone();
+            q.max_peers = 4;
+            (scenario(&q), any::<u16>(), 300u32..3000).prop_map(|(mut sc, l, len)| {
+                if sc.seed % 3 != 1 {
+                    sc.predictor = 2;
+                    sc.vals = sc.vals.max(4);
+                }
+                let links: Vec<(u8, u8)> = all_links(&sc).into_iter().filter(|(a, b)| *a < 100 && *b < 100).collect();
+                if !links.is_empty() {
+                    let (from, to) = links[idx(l, links.len())];
+                    sc.ops.push(Op::Outage { tick: 0, from, to, len_ms: len });
+                    sc.notify_ms = sc.notify_ms.max(20_000);
+                    sc.timeout_ms = sc.timeout_ms.max(40_000);
+                    sc.ops.sort_by_key(|o| o.tick());
+                }
+                sc
+            }).boxed()
+        },
+        ctx.tier.pick(3000, 12000), eval));
     // the Disconnected clause needs drops: C07's two-peer deaths and explicit disconnect_player calls
     // (rollback and lockstep, input delays, spectators), judged with C03's per-request clauses
     let seed = ctx.seed;
